@@ -26,10 +26,12 @@ FAULTS = {
     "rejected-span": ("qartod", "location_test", dict(bbox=[0, 1, 2])),
     "missing-input": ("qartod", "climatology_test", dict(config=[dict(tspan=[1, 12], period="month", vspan=[0, 5])])),
     "raises": ("qartod", "vraise_test", dict(boom=1)),
+    "rejected-mapping": ("axds", "valid_range_test", dict(valid_span=dict(min=0, max=40))),  # a (rejected) parameter whose value is itself a mapping
     "aggregate-entry": ("qartod", "aggregate", None),
     "absent-stream-two-tests": None,  # two adjacent entries for a stream id that is not in the data
     "absent-stream": None,  # a healthy entry configured for a stream id that is not in the data
-    "no-axes-stream": None,  # (xarray:twodims only) a position test on a variable that lives on another dimension without lat/lon
+    "no-axes-stream": None,
+    "off-time-stream": None,  # (xarray:twodims only) a time-dependent test on a variable that is not on the time dimension  # (xarray:twodims only) a position test on a variable that lives on another dimension without lat/lon
 }
 PLACEMENTS = ("same-stream", "other-stream", "other-context", "other-context-window")
 
@@ -84,6 +86,10 @@ def make_contexts(case):
             others.setdefault("u", []).append(("qartod", "location_test", dict(bbox=[-10, -10, 30, 10])))
             fault_keys.append(("u", "location_test"))
             continue
+        if f == "off-time-stream":
+            others.setdefault("u", []).append(("qartod", "rate_of_change_test", dict(threshold=1)))
+            fault_keys.append(("u", "rate_of_change_test"))
+            continue
         e = FAULTS[f]
         if place == "same-stream":
             same.append(e)
@@ -106,6 +112,8 @@ def make_contexts(case):
         if sid not in streams:
             streams[sid] = build_stream(es)
     ctxs = [dict(streams=streams)]
+    if case.get("main_window"):
+        ctxs[0]["start"], ctxs[0]["end"] = S.T0 + S.DAY, S.T0 + 3 * S.DAY
     for e, place in ctx2:
         c = dict(streams={"v": build_stream([e])})
         if place == "other-context-window":
@@ -174,6 +182,8 @@ def check_case(case):
         # QcConfig.run returns the default stream only
         ctxs = [dict(c, streams={"_stream": c["streams"]["v"]}) for c in ctxs if "v" in c["streams"]]
     cfgd = S.make_config(ctxs)
+    if case.get("layout") == "bare" and len(ctxs) == 1 and "start" not in ctxs[0]:
+        cfgd = ctxs[0]["streams"]   # the bare {stream id: {module: {test: parameters}}} spelling
     kinds = "+".join(sorted({f for f, _ in case["faults"]}))
     places = "+".join(sorted({p for _, p in case["faults"]}))
     sig0 = f"{PROP}|{fe}|faults={kinds}"
@@ -181,6 +191,8 @@ def check_case(case):
     solos = {}
     for h in case["healthy"]:
         solo_ctx = [dict(streams={rename("v"): build_stream([HEALTHY[h]])})]
+        if case.get("main_window"):
+            solo_ctx[0]["start"], solo_ctx[0]["end"] = S.T0 + S.DAY, S.T0 + 3 * S.DAY
         solos[h] = alpha.call(run_and_collect, fe, tab, S.make_config(solo_ctx))
     res = alpha.call(run_and_collect, fe, tab, cfgd)
     if isinstance(res, alpha.Raised):
@@ -260,9 +272,9 @@ def run_task(task, acc):
         for combo in fault_sets(maxf):
             if ("absent-stream" in combo or "absent-stream-two-tests" in combo) and fe in ("numpy:nd", "qcconfig"):
                 continue
-            if "no-axes-stream" in combo and fe != "xarray:twodims":
+            if ("no-axes-stream" in combo or "off-time-stream" in combo) and fe != "xarray:twodims":
                 continue
-            real = [f for f in combo if f not in ("absent-stream", "no-axes-stream", "absent-stream-two-tests")]
+            real = [f for f in combo if f not in ("absent-stream", "no-axes-stream", "absent-stream-two-tests", "off-time-stream")]
             # (a) all in the same stream, every order relative to the healthy entries
             k = len(hs) + len(real)
             perms = list(itertools.permutations(range(k))) if len(real) <= 2 else [tuple(range(k)), tuple(reversed(range(k)))]
@@ -270,11 +282,16 @@ def run_task(task, acc):
                 yield dict(fe=fe, n=n, healthy=hs, faults=[[f, "same-stream"] for f in combo], order=list(order))
                 if "absent-stream" in combo or "absent-stream-two-tests" in combo:
                     yield dict(fe=fe, n=n, healthy=hs, faults=[[f, "same-stream"] for f in combo], order=list(order), ghost_first=True)
+                if order == perms[0] and fe != "qcconfig":
+                    # the same program spelled as a bare stream-id mapping, and inside a windowed context
+                    yield dict(fe=fe, n=n, healthy=hs, faults=[[f, "same-stream"] for f in combo], order=list(order), layout="bare")
+                    if fe != "numpy:dictnotime":
+                        yield dict(fe=fe, n=n, healthy=hs, faults=[[f, "same-stream"] for f in combo], order=list(order), main_window=True)
             # (b) every other placement (all faults together), (c) mixed: first fault in-stream, the rest elsewhere
             for place in PLACEMENTS[1:]:
                 if fe in ("numpy:nd", "qcconfig") and place == "other-stream":
                     continue
                 yield dict(fe=fe, n=n, healthy=hs, faults=[[f, place] for f in combo], order=[])
-                if len(real) >= 2 and combo[0] not in ("absent-stream", "no-axes-stream", "absent-stream-two-tests"):
+                if len(real) >= 2 and combo[0] not in ("absent-stream", "no-axes-stream", "absent-stream-two-tests", "off-time-stream"):
                     yield dict(fe=fe, n=n, healthy=hs, faults=[[combo[0], "same-stream"]] + [[f, place] for f in combo[1:]], order=[])
     run_cases(acc, gen(), check_case)
